@@ -38,45 +38,72 @@ def reach(p, entries):
     return cg, roots, cg.reachable(roots)
 
 
+def value_classes(p, f, e, at=None, depth=3):
+    """classes an expression may evaluate to, when it can be told: a set of class names, '?<src>' for what cannot be told.
+       Follows constructor calls, functions returning such calls or one of their own parameters, the variable of an enclosing
+       `except X as v`, and locals assigned once."""
+    if isinstance(e, ast.Call):
+        tgt = p.resolve_call(f, e)
+        if isinstance(tgt, Class):
+            return {tgt.name}
+        if isinstance(tgt, tuple) and tgt[0] == 'builtin':
+            return {tgt[1]}
+        if isinstance(tgt, list) and tgt and depth > 0:
+            out = set()
+            for g in tgt:
+                rets = [n for n in g.body_nodes() if isinstance(n, ast.Return) and n.value is not None]
+                if not rets:
+                    out.add('?' + src_of(e))
+                for n in rets:
+                    v = n.value
+                    if isinstance(v, ast.Name) and v.id in g.params and not p.local_assignments(g, v.id):
+                        # returns its own (never re-bound) parameter: the class of the argument at this call
+                        names = [a.arg for a in g.node.args.posonlyargs + g.node.args.args]
+                        if names and names[0] in ('self', 'cls') and isinstance(e.func, ast.Attribute):
+                            names = names[1:]
+                        arg = None
+                        if v.id in names and names.index(v.id) < len(e.args):
+                            arg = e.args[names.index(v.id)]
+                        for k in e.keywords:
+                            if k.arg == v.id:
+                                arg = k.value
+                        out |= value_classes(p, f, arg, at, depth - 1) if arg is not None else {'?' + src_of(v)}
+                    else:
+                        out |= value_classes(p, g, v, n, depth - 1)
+            return out
+        return {'?' + src_of(e)}
+    if isinstance(e, ast.Name):
+        pm = p.parents(f)
+        n = at
+        while n is not None:
+            n = pm.get(n)
+            if isinstance(n, ast.ExceptHandler) and n.name == e.id and n.type is not None:
+                names = set()
+                for tt in (n.type.elts if isinstance(n.type, ast.Tuple) else [n.type]):
+                    r = p.resolve_expr(f, tt)
+                    names.add(r.obj.name if r is not None and r.kind == 'class' else (r.obj if r is not None and r.kind == 'builtin' else '?' + src_of(tt)))
+                return names
+        if e.id in f.locals and e.id not in f.params:
+            vals = p.local_assignments(f, e.id)
+            if len(vals) == 1 and vals[0] is not None and depth > 0:
+                return value_classes(p, f, vals[0], at, depth - 1)
+        return {'?' + src_of(e)}
+    return {'?' + src_of(e)}
+
+
 def raised_class(p, f, st):
-    """-> (kind, name): kind in class|error-factory|reraise|unknown"""
+    """-> (kind, name): kind in class|factory|reraise|unknown"""
     exc = st.exc
     if exc is None:
         return ('reraise', None)
     if isinstance(exc, ast.Name):
-        # `raise err` inside `except X as err`
-        pm = p.parents(f)
-        n = st
-        while n is not None:
-            n = pm.get(n)
-            if isinstance(n, ast.ExceptHandler) and n.name == exc.id:
-                names = []
-                t = n.type
-                for tt in (t.elts if isinstance(t, ast.Tuple) else [t]):
-                    e = p.resolve_expr(f, tt)
-                    names.append(e.obj.name if e is not None and e.kind == 'class' else src_of(tt))
-                return ('reraise', tuple(names))
         e = p.resolve_name(f, exc.id)
-        if e is not None and e.kind in ('class', 'builtin'):
+        if e is not None and e.kind in ('class', 'builtin') and exc.id not in f.locals:
             return ('class', e.obj.name if e.kind == 'class' else e.obj)
-        return ('unknown', src_of(exc))
-    if isinstance(exc, ast.Call):
-        tgt = p.resolve_call(f, exc)
-        if isinstance(tgt, Class):
-            return ('class', tgt.name)
-        if isinstance(tgt, tuple) and tgt[0] == 'builtin':
-            return ('class', tgt[1])
-        if isinstance(tgt, list) and tgt:
-            # factory: what do they return?
-            names = set()
-            for g in tgt:
-                for n in g.body_nodes():
-                    if isinstance(n, ast.Return) and n.value is not None:
-                        t = p.resolve_call(g, n.value) if isinstance(n.value, ast.Call) else None
-                        names.add(t.name if isinstance(t, Class) else '?' + src_of(n.value))
-            return ('factory', tuple(sorted(names)))
-        return ('unknown', src_of(exc))
-    return ('unknown', src_of(exc))
+    names = value_classes(p, f, exc, st)
+    if any(n.startswith('?') for n in names):
+        return ('unknown', tuple(sorted(names)))
+    return ('class', tuple(sorted(names)))
 
 
 def _guarded_by_throws(p, f, st):
@@ -119,8 +146,10 @@ def _check_raises(p, res, rname, entries, allowed, skip_guarded=True):
                     continue
             kind, name = raised_class(p, f, st)
             names = name if isinstance(name, tuple) else (name,)
-            bad = kind == 'unknown' or any(n not in allowed for n in names)
-            if bad:
+            bad = any(n not in allowed and not str(n).startswith('?') for n in names)
+            if not bad and kind == 'unknown':
+                res.undecided('%s: %s' % (f.short, src_of(st)), 'the class of the raised value cannot be told (%s)' % ', '.join(map(str, names)))
+            elif bad:
                 chain = None
                 for r in roots:
                     chain = cg.path(r, q)
@@ -141,12 +170,15 @@ def exc_raise_expand(p, res):
     for q, cls in (('scanner.Scanner.error', 'ScannerException'), ('token_scanner.TokenScanner.error', 'TokenScannerException')):
         f = p.func(q)
         rets = [n for n in f.body_nodes() if isinstance(n, ast.Return)]
-        okc = len(rets) == 1 and isinstance(rets[0].value, ast.Call) and isinstance(p.resolve_call(f, rets[0].value), Class) \
-            and p.resolve_call(f, rets[0].value).name == cls
-        if okc:
+        got = set()
+        for r in rets:
+            got |= value_classes(p, f, r.value, r) if r.value is not None else {'None'}
+        if rets and got == {cls}:
             res.ok('%s returns %s' % (q, cls))
+        elif not rets or any(g.startswith('?') for g in got):
+            res.undecided('return of %s' % q, 'what the error factory returns cannot be told (%s)' % ', '.join(sorted(got)))
         else:
-            res.bad(F('EXC-RAISE/expand', f, f.node, 'return of %s' % q, 'error factory must build %s' % cls))
+            res.bad(F('EXC-RAISE/expand', f, f.node, 'return of %s' % q, 'error factory must build %s (returns %s)' % (cls, ', '.join(sorted(got)))))
     # both exception classes derive from Exception directly (not from each other / builtin families that callers catch broadly)
     for q in ('scanner.ScannerException', 'token_scanner.TokenScannerException'):
         c = p.cls(q)
@@ -164,6 +196,10 @@ def exc_raise_expand(p, res):
         last = h.body[-1]
         if isinstance(last, ast.Raise) and (last.exc is None or (isinstance(last.exc, ast.Name) and last.exc.id == h.name)):
             res.ok('%s re-raises the decorated ScannerException' % q)
+        elif isinstance(last, ast.Raise) and value_classes(p, f, last.exc, last) == {'ScannerException'}:
+            res.ok('%s raises a ScannerException from its handler' % q)
+        elif isinstance(last, ast.Raise):
+            res.undecided('%s: %s' % (q, src_of(last)), 'the handler raises a value whose class cannot be told')
         else:
             res.bad(F('EXC-RAISE/expand', f, h, src_of(h), 'the parse wrapper must re-raise the scanner error it decorates'))
     res.require_floor(20)
@@ -309,10 +345,21 @@ def exc_fmt(p, res):
                         res.undecided('%s: %s' % (f.short, src_of(n)), 'format string is not a constant: placeholder count cannot be checked')
                     continue
                 nargs = len(n.right.elts) if isinstance(n.right, ast.Tuple) else 1
+                known = True
+                if isinstance(n.right, ast.Name) and n.right.id in f.locals and n.right.id not in f.params:
+                    # a local that holds the argument tuple: every assignment must be a tuple display of one length
+                    vals = p.local_assignments(f, n.right.id)
+                    lens = {len(v.elts) if isinstance(v, ast.Tuple) else None for v in vals}
+                    if vals and None not in lens and len(lens) == 1:
+                        nargs = lens.pop()
+                    elif any(isinstance(v, ast.Tuple) for v in vals):
+                        known = False
                 for s in fmts:
                     c = _fmt_count(s)
                     if c is None:
                         res.bad(F('EXC-FMT', f, n, src_of(n), 'unparsable format string %r' % s))
+                    elif not known:
+                        res.undecided('%s: %s' % (f.short, src_of(n)), 'the argument is a local assigned tuples of different shapes: count not decided')
                     elif c != nargs:
                         res.bad(F('EXC-FMT', f, n, src_of(n), 'format %r has %d placeholder(s) but %d argument(s) are supplied: TypeError' % (s, c, nargs),
                                   failing_input='[${1}'))
@@ -494,7 +541,7 @@ _SRG = {}
 NUMBER_CONSUMERS = {'consume_number': 'accepts -?digits[.digits] and restores the position on a lone dash / lone dot'}
 
 
-def _validate_run(q, i, x):
+def _validate_run(q, i, x, inert=None):
     """events of path q before index i that touch scanner x must establish that x.current() is a digit run / a number:
          A:  x.start = x.pos ; x.eat_while(is_number) true ; [current]
          B:  s = x.pos (snapshot) ; consume_number(x) true ; x.start = s ; [current]
@@ -512,6 +559,8 @@ def _validate_run(q, i, x):
             continue
         if not sympath.touches(n2, x):
             continue
+        if inert is not None and isinstance(n2, ast.Call) and inert(n2, x):
+            continue            # a helper that receives the scanner but, by its effect summary, never modifies it (error reporting)
         if stage == 'first':
             if isinstance(n2, ast.Call) and src_of(n2) == '%s.eat_while(is_number)' % x:
                 if (s2, True) in conds:
@@ -583,6 +632,27 @@ def _run_sites(p, f, converters):
         out['error'] = str(e)
         _SRG[key] = out
         return out
+    def inert(call, x):
+        from .. import effects
+        if not isinstance(call.func, ast.Name) or call.keywords:
+            return False
+        try:
+            tgt = p.resolve_call(f, call)
+        except Exception:
+            return False
+        if not (isinstance(tgt, list) and len(tgt) == 1):
+            return False
+        g = tgt[0]
+        if len(call.args) > len(g.params):
+            return False
+        summ = effects.get(p).sum[g.qualname]
+        for a, pname in zip(call.args, g.params):
+            if src_of(a) == x:
+                if any(o[0] == ('param', pname) for o, _ in summ.all_sites()):
+                    return False
+            elif sympath.touches(a, x):
+                return False
+        return True
     for q in paths:
         ev = q.events
         cur = {sym: (i, src_of(n.func.value)) for i, (sym, n, _) in enumerate(ev)
@@ -592,14 +662,14 @@ def _run_sites(p, f, converters):
         for c in sympath.mentions(q, lambda n: isinstance(n, ast.Call)):
             if isinstance(c.func, ast.Name) and c.func.id in ('int', 'float') and c.args and isinstance(c.args[0], ast.Name) and c.args[0].id in cur:
                 i, x = cur[c.args[0].id]
-                out['direct'].setdefault((c.func.id, x), []).append(_validate_run(q, i, x))
+                out['direct'].setdefault((c.func.id, x), []).append(_validate_run(q, i, x, inert))
             else:
                 tgt = p.resolve_call(f, c) if isinstance(c.func, (ast.Name, ast.Attribute)) else None
                 if isinstance(tgt, list) and len(tgt) == 1:
                     for ai, a in enumerate(c.args):
                         if isinstance(a, ast.Name) and a.id in cur and (tgt[0].qualname, ai) in converters:
                             i, x = cur[a.id]
-                            out['via'].setdefault((tgt[0].qualname, ai), []).append(_validate_run(q, i, x))
+                            out['via'].setdefault((tgt[0].qualname, ai), []).append(_validate_run(q, i, x, inert))
     _SRG[key] = out
     return out
 
